@@ -14,7 +14,8 @@ EXHAUSTIVE = True
 RULE = ("instances of Const/OneOf/NoneOf/ExprValidator/Check/Enum/FlagsEnum/Mapping over integer, bytes and string sub-constructs; "
         "each instance driven exhaustively over its one-byte domain (256 inputs parsed, 256 values built; 65536 for two-byte domains in thorough), "
         "all label spellings (name, attribute, int, 'a|b', attr|attr, dict, unknown, mixed), labels obtained from one Enum built by another with a different table, "
-        "unmapped integers up to 2^128; "
+        "unmapped integers up to 2^128; predicates with the constant on the left and nested arithmetic; collections that are not lists; validators and Error guards "
+        "reading the running index of a repeater (every list over a small domain); the constant a named Const contributes to the build scope; "
         "Error placed under every absorbing/forwarding combinator pair at every alternative position, parse and build. "
         "non-trivial = instance with >=1 accepted and >=1 rejected value in both directions, or an Error placement under >=2 combinators; distinct by instance")
 ASSUMPTIONS = ["bool/int aliasing (False == 0) is Python equality, not a violation", "FlagsEnum dict entries with a falsy value are not looked up by the library (documented behaviour) and are not generated with unknown labels"]
